@@ -368,7 +368,7 @@ func deliver(addr string, stream []byte, mode int, e *Env) ([]byte, string) {
 
 // c03Truncation cuts each request at byte positions after representative states, then half-closes:
 // the only admissible outcome is that the connection ends without any byte for the cut request
-// (a WRITE cut inside its payload may additionally be answered by one 4-byte result).
+// (the announced payload of a WRITE is part of the request: a WRITE cut inside it is truncated too).
 func c03Truncation(e *Env, alpha []sym, root string, procs map[bool]*host.Proc, worlds map[bool]*model.World) int {
 	run := e.Run
 	idx := func(name string) int {
@@ -450,8 +450,7 @@ func c03Truncation(e *Env, alpha []sym, root string, procs map[bool]*host.Proc, 
 			}
 			return
 		}
-		okWritePartial := last.Op == wire.OpWrite && t.cut >= 16 && len(stray) == 4
-		if len(stray) > 0 && !okWritePartial {
+		if len(stray) > 0 {
 			run.Violate("stray-bytes", "truncated-request", fmt.Sprintf("%s cut at byte %d/%d: server sent %d bytes (%x) for an incomplete request", alpha[t.s].name, t.cut, len(full), len(stray), stray[:min(len(stray), 32)]), witness)
 		}
 	})
